@@ -2,14 +2,14 @@
 from __future__ import annotations
 
 import ast
-from typing import Any, Dict, List, Optional, Tuple
+from typing import Any, Dict, List, Optional, Set, Tuple
 
 from ..engine.codec import Codec, Extractor, Prim, show_prim
 from ..engine.match import Spec, loop_doms, require_return, residual
 from ..engine.repo import AnalysisError, dotted
 from ..engine.report import Check
 from ..engine.terms import C, conjuncts, lin_parts, show, subterms
-from .common import short
+from .common import functions_mentioning, short
 
 DT = "skepticoin.datatypes."
 SG = "skepticoin.signing."
@@ -245,12 +245,10 @@ def r07_4(ck: Check) -> None:
     table = datatypes_table(ck)
     dm = MS + "DataMessage"
     sites = 0
-    for fi in ck.repo.all_functions():
-        if "DataMessage(" not in ck.repo.src(fi.node):
-            continue
+    for fi in functions_mentioning(ck, "DataMessage("):
         s = ck.summ(fi.qualname, 0)
         for ev in s.events:
-            if ev.kind == "call" and ("new:" + dm) in ev.targets and not ev.chain and ev.func == fi.qualname:
+            if ev.kind == "call" and ("new:" + dm) in ev.targets and not ev.chain:
                 args = ev.term[2]
                 if len(args) != 2:
                     continue
@@ -268,6 +266,23 @@ def r07_4(ck: Check) -> None:
                 else:
                     ck.unknown("R07.4", construct, "payload type or tag not resolved", ev.loc)
     ck.expect_count("R07.4", "DataMessage construction sites", sites, 3)
+
+
+def _only_called_from(ck: Check, fn: str, allowed: Set[str], depth: int) -> bool:
+    """fn is a helper introduced after the rule tables were written and every (name-matched) call site of it lies in an allowed
+    function or in another such helper: its events and values are analysed as part of those callers."""
+    if depth > 4 or not ck.walker.transparent(fn):
+        return False
+    name = fn.split(".")[-1]
+    callers = set()
+    for fi in ck.repo.all_functions():
+        if fi.qualname == fn:
+            continue
+        for n in ast.walk(fi.node):
+            if isinstance(n, ast.Call) and ((isinstance(n.func, ast.Attribute) and n.func.attr == name)
+                                            or (isinstance(n.func, ast.Name) and n.func.id == name)):
+                callers.add(fi.qualname)
+    return bool(callers) and all(c in allowed or _only_called_from(ck, c, allowed, depth + 1) for c in callers)
 
 
 def r07_5(ck: Check) -> None:
@@ -349,8 +364,8 @@ def r07_5(ck: Check) -> None:
                 continue
             suppliers += 1
             construct = "%s supplies a pre-computed id to %s(...)" % (short(fn), target.split(".")[-1])
-            if fn in allowed:
-                ck.ok("R07.5", construct, "one of the three provenance-checked suppliers", "%s:%d" % (m.path, n.lineno))
+            if fn in allowed or _only_called_from(ck, fn, allowed, 0):
+                ck.ok("R07.5", construct, "one of the three provenance-checked suppliers (or a helper only they call)", "%s:%d" % (m.path, n.lineno))
             else:
                 ck.violated("R07.5", construct, "a new site hands a pre-computed id to a constructor; only the two decoders (raw-span hash) and the "
                             "block store reader (stored canonical hashes) are provenance-checked", "%s:%d" % (m.path, n.lineno))
